@@ -142,7 +142,9 @@ def judge(run: WorkerRun, sc: dict, graceful: float, k, res: Result, label: str)
         terminal_done = [o for o in done_ops if o in ("ack", "nack")]
         if "processing" in places:
             problem = "message still marked in-flight after the worker returned"
-            if sc.get("broker") == "redis" and len(delivers) == len([o for o in done_ops if o in ("ack", "nack", "reject", "requeue")]):
+            paused_at_finish = all(e.get("paused") is not False for e in run.events if e["kind"] == "consumer_finish")
+            if sc.get("broker") == "redis" and paused_at_finish and \
+                    len(delivers) == len([o for o in done_ops if o in ("ack", "nack", "reject", "requeue")]):
                 # every delivery handed to the runner was disposed of: this mark belongs to a take of the consumer's background
                 # fetch loop that was never handed over — dropped by finish()
                 finding = F24
